@@ -36,7 +36,7 @@ fn c01_vec_u8_u16() {
         assert!(v.len() == n, "C02: len() differs from the reference decoding");
         assert!(v.len() <= v.capacity(), "C02: len > capacity in an accepted view");
         assert!(v.capacity() == (len - 2) / 2 * 2, "C02,C04: capacity differs from the reference");
-        assert!(v.size() <= len, "C05: size() exceeds the mapped bytes");
+        assert!(v.size() <= len, "C05,C10: size() exceeds the mapped bytes");
         assert!(v.as_bytes().len() <= len, "C02,C04: as_bytes() longer than the given slice");
         let s = v.as_slice();
         let mut i = 0;
@@ -129,7 +129,7 @@ fn c01_uenum() {
     if off != 0 { assert!(matches!(r, Err(ref e) if e.kind == ErrorKind::BadAlign), "C02: misaligned slice must be BadAlign"); return; }
     if let Ok(v) = r {
         assert!(core::mem::size_of_val(v) <= len, "C04: mapped value claims more bytes than the slice");
-        assert!(v.size() <= len, "C05: size() exceeds the mapped bytes");
+        assert!(v.size() <= len, "C05,C10: size() exceeds the mapped bytes");
         match v.as_ref() {
             UEnumRef::A => assert!(b[0] == 0, "C02: variant differs from the tag byte"),
             UEnumRef::B(x, y) => { assert!(b[0] == 1, "C02: variant differs from the tag byte"); assert!(*x == b[4], "C02,C04: field differs from the reference decoding"); assert!(*y == rd_u16(b, 6), "C02,C04: field differs from the reference decoding"); }
@@ -163,7 +163,7 @@ fn c01_ustruct() {
         assert!(core::mem::size_of_val(v) <= len, "C04: mapped value claims more bytes than the slice");
         assert!(v.a == b[0] && v.b == rd_u16(b, 2), "C02,C04: field differs from the reference decoding");
         assert!(v.c.len() == n && v.c.capacity() == cap, "C02,C04: tail differs from the reference decoding");
-        assert!(v.size() <= len && v.size() % 2 == 0, "C05: size() exceeds the mapped bytes or is not a multiple of ALIGN");
+        assert!(v.size() <= len && v.size() % 2 == 0, "C05,C10: size() exceeds the mapped bytes or is not a multiple of ALIGN");
     }
 }
 
@@ -178,7 +178,7 @@ fn c01_upad() {
     if off != 0 { assert!(matches!(r, Err(ref e) if e.kind == ErrorKind::BadAlign), "C02: misaligned slice must be BadAlign"); return; }
     if let Ok(v) = r {
         assert!(core::mem::size_of_val(v) <= len, "C04: mapped value claims more bytes than the slice");
-        assert!(v.size() <= len, "C05: size() exceeds the mapped bytes");
+        assert!(v.size() <= len, "C05,C10: size() exceeds the mapped bytes");
         assert!(v.v.len() <= v.v.capacity(), "C02: len > capacity in an accepted view");
     }
 }
@@ -284,7 +284,7 @@ fn c01_vec_zst() {
         let v = r.unwrap();
         assert!(v.len() == b[0] as usize, "C02: len() differs from the reference decoding");
         assert!(v.len() <= v.capacity(), "C02: len > capacity in an accepted view");
-        assert!(v.size() <= len, "C05: size() exceeds the mapped bytes");
+        assert!(v.size() <= len, "C05,C10: size() exceeds the mapped bytes");
     }
 }
 
@@ -416,7 +416,7 @@ fn c01_flex_vec_u8() {
             k += 1;
             if k >= N { break; }
         }
-        assert!(v.size() <= len, "C05: size() exceeds the mapped bytes");
+        assert!(v.size() <= len, "C05,C10: size() exceeds the mapped bytes");
         let _ = total;
     }
 }
@@ -443,6 +443,6 @@ fn c01_flex_u32_u8() {
             if k >= N { break; }
         }
         let _ = acc;
-        assert!(v.size() <= len, "C05: size() exceeds the mapped bytes");
+        assert!(v.size() <= len, "C05,C10: size() exceeds the mapped bytes");
     }
 }
